@@ -133,6 +133,37 @@ class FuncView:
             lab = "F" if lab == "T" else "T"
         return self.dominated_by_edge(targets, n, lab)
 
+    def facts(self, target):
+        """atomic conditions that hold on EVERY path to `target` (a CFG node), as normalised source strings: the
+        conjuncts of each dominating test taken on its true edge, the negated disjuncts of each dominating test taken on
+        its false edge.  Independent of how the guards are nested or merged (`if a: if b:` == `if a and b:`)."""
+        from . import normalize
+        out = set()
+
+        def atoms(t, holds):
+            if isinstance(t, ast.UnaryOp) and isinstance(t.op, ast.Not):
+                atoms(t.operand, not holds)
+            elif isinstance(t, ast.BoolOp) and isinstance(t.op, ast.And) and holds:
+                for v in t.values:
+                    atoms(v, True)
+            elif isinstance(t, ast.BoolOp) and isinstance(t.op, ast.Or) and not holds:
+                for v in t.values:
+                    atoms(v, False)
+            elif holds:
+                out.add(src(t))
+            else:
+                try:
+                    out.add(src(normalize._BoolNF().visit(normalize._negate(ast.parse(ast.unparse(t), mode="eval").body))))
+                except Exception:
+                    pass
+        for n in self.cfg.nodes:
+            if n.kind != "test" or n.id == target.id:
+                continue
+            for lab in ("T", "F"):
+                if self.dominated_by_edge([target], n, lab):
+                    atoms(n.ast.test, lab == "T")
+        return out
+
     def nodes(self, kind=None, pred=None):
         return [n for n in self.cfg.nodes if (kind is None or n.kind == kind)
                 and (pred is None or pred(n))]
@@ -481,4 +512,17 @@ def member_test(t):
             a, b = dotted(t.left), dotted(t.comparators[0])
             if a and b:
                 return (a, frozenset([b])) if not a.isupper() else (b, frozenset([a]))
+    return None
+
+
+def truthiness_of(e):
+    """X when e computes bool(X): `True if X else False`, `bool(X)`, `not not X`; else None.  (The if/else-assignment
+    spelling is rewritten to the conditional expression by sa/normalize N6.)"""
+    if isinstance(e, ast.IfExp) and isinstance(e.body, ast.Constant) and e.body.value is True \
+            and isinstance(e.orelse, ast.Constant) and e.orelse.value is False:
+        return e.test
+    if isinstance(e, ast.Call) and isinstance(e.func, ast.Name) and e.func.id == "bool" and len(e.args) == 1 and not e.keywords:
+        return e.args[0]
+    if isinstance(e, ast.UnaryOp) and isinstance(e.op, ast.Not) and isinstance(e.operand, ast.UnaryOp) and isinstance(e.operand.op, ast.Not):
+        return e.operand.operand
     return None
